@@ -122,11 +122,29 @@ package layer2
 //@   requires a != nil && lockstate(a.RWMutex) == 0
 //@   ensures lockstate(a.RWMutex) == 0 && lockframe(a.RWMutex)
 //@   modifies $held
+// gratuitous (abstracted mode; lock discipline as before): an unsolicited announcement is sent only while some Service
+// still holds the address (reference count > 0), only on interfaces the advertisement covers, ARP for IPv4 / NDP otherwise
 //@ func (*Announce).gratuitous
-//@   lockonly
+//@   abstract
 //@   requires a != nil && lockstate(a.RWMutex) == 0
 //@   ensures lockstate(a.RWMutex) == 0 && lockframe(a.RWMutex)
 //@   modifies $held
+//@   assert before Gratuitous#1: [stillHeld] a.ipRefcnt[net.ipstr(adv.ip)] > 0
+//@   assert before Gratuitous#1: [covered] Covers(adv, client.intf)
+//@   assert before Gratuitous#1: [v4] net.is4(adv.ip) && sameSlice(arg1, adv.ip)
+//@   assert before Gratuitous#2: [stillHeld6] a.ipRefcnt[net.ipstr(adv.ip)] > 0
+//@   assert before Gratuitous#2: [covered6] Covers(adv, client.intf)
+//@   assert before Gratuitous#2: [v6] !net.is4(adv.ip) && sameSlice(arg1, adv.ip)
+//@   loop 1 binds client
+//@   loop 1 invariant lockstate(a.RWMutex) == 1 && a.ipRefcnt[net.ipstr(adv.ip)] > 0 && net.is4(adv.ip)
+//@   loop 2 binds client#2
+//@   loop 2 invariant lockstate(a.RWMutex) == 1 && a.ipRefcnt[net.ipstr(adv.ip)] > 0 && !net.is4(adv.ip)
+//@ func (*arpResponder).Gratuitous
+//@   trusted
+//@   modifies nothing
+//@ func (*ndpResponder).Gratuitous
+//@   trusted
+//@   modifies nothing
 //@ func (*Announce).updateInterfaces
 //@   lockonly
 //@   requires a != nil && lockstate(a.RWMutex) == 0
